@@ -106,7 +106,7 @@ class PyRepo:
                 except SyntaxError as e:
                     raise AnalysisError("cannot parse %s: %s" % (rel, e))
                 self.digest.update(src.encode())
-                if inline and os.environ.get("VCHECK_NO_INLINE") != "1":
+                if (inline or os.environ.get("VCHECK_INLINE") == "1") and os.environ.get("VCHECK_NO_INLINE") != "1":
                     from . import inline as _inline
                     _inline.inline_new_helpers(tree, rel, self.inlined)
                 if os.environ.get("VCHECK_NO_RENAME") != "1":
